@@ -12,6 +12,28 @@ from harness import tlc, sk, tracecheck, peer_drv, strace_fs
 from harness.common import Check, seed, machinery_failure, ROOT
 
 
+RESTART_SNIPPET = """
+import sys, threading
+sys.dont_write_bytecode = True
+sys.path.insert(0, %r)
+threading.Thread.start = lambda self: None
+import skepticoin.scripts.utils as u
+from skepticoin.coinstate import CoinState
+from skepticoin.datatypes import Block
+from skepticoin.genesis import genesis_block_data
+import skepticoin.networking.disk_interface as D
+def offline():
+    raise RuntimeError('no network')
+D.load_peers_from_network = offline
+class A:
+    dont_listen = True
+    listening_port = 2412
+cs = CoinState.empty().add_block_no_validation(Block.deserialize(genesis_block_data))
+t = u.start_networking_peer_in_background(A(), cs)
+print('BOOK %%d' %% len(t.local_peer.network_manager.disconnected_peers))
+"""
+
+
 def run(pid, tier, replay=None):
     chk = Check(pid, tier)
     quick = tier != "thorough"
@@ -240,6 +262,36 @@ def run(pid, tier, replay=None):
             ok = False
         if not ok:
             chk.violation("C19:peers_file_neither_complete_old_nor_complete_new_after_crash", {"crash_before_boundary": k, "of": nb}, {"clause": "crash"})
+        # restart: the scripts' start-up path (start_networking_peer_in_background -> NetworkingThread -> load_peers) on what the crash left
+        # behind, without the operating-system thread; afterwards the file is still whole and the peer book holds the listed peers
+        rs = subprocess.run(["/venv/bin/python", "-c", RESTART_SNIPPET % sk.REPO], cwd=d, capture_output=True, text=True)
+        try:
+            got2 = json.load(open(os.path.join(d, "peers.json")))
+            ok2 = got2 == old[:100] or (got2[0][:3] == ["10.9.9.9", 2412, "OUTGOING"] and len(got2) == 100)
+        except Exception:
+            ok2 = False
+        m2 = [l_ for l_ in rs.stdout.splitlines() if l_.startswith("BOOK ")]
+        nbook = int(m2[0].split()[1]) if m2 else -1
+        if ok and (not ok2 or rs.returncode != 0 or nbook != 100):
+            chk.violation("C19:peers_file_neither_complete_old_nor_complete_new_after_crash_and_restart",
+                          {"crash_before_boundary": k, "of": nb, "file_whole_after_restart": ok2, "restart_exit": rs.returncode, "peers_loaded": nbook,
+                           "restart_stderr": rs.stderr[-300:]}, {"clause": "crash_restart"})
+    # an operating-system fault instead of a crash: the file system accepts only L bytes of the new file
+    newsize_p = os.path.getsize(os.path.join(d, "peers.json")) if os.path.exists(os.path.join(d, "peers.json")) else 9000
+    for L in sorted({1, 4096, newsize_p // 2, max(newsize_p - 10, 2)}):
+        with open(os.path.join(d, "peers.json"), "w") as f:
+            json.dump(old[:100], f, indent=4)
+        if os.path.exists(os.path.join(d, "peers.json.new")):
+            os.remove(os.path.join(d, "peers.json.new"))
+        subprocess.run(["/venv/bin/python", os.path.join(ROOT, "harness/crashrun.py"), sk.REPO, "peers_limit", str(L)], cwd=d, capture_output=True, text=True)
+        chk.case(("file_size_limit", L), nontrivial=True)
+        try:
+            got = json.load(open(os.path.join(d, "peers.json")))
+            ok = got == old[:100] or (got[0][:3] == ["10.9.9.9", 2412, "OUTGOING"] and len(got) == 100)
+        except Exception:
+            ok = False
+        if not ok:
+            chk.violation("C19:peers_file_neither_complete_old_nor_complete_new_after_a_save_on_a_full_file_system", {"bytes_the_file_system_accepts": L}, {"clause": "short_write"})
     chk.extra["crash_points_materialised"] = nb
     shutil.rmtree(d, ignore_errors=True)
     chk.extra["rule"] = ("randomized sequences of 45-60 network-manager events (ticks from 1 s to 1 h around every back-off boundary, steps, incoming, remote close, greeting incl. own nonce, "
